@@ -255,6 +255,7 @@ def run_check(pid, spec, tier, seed, nshards=None):
         "observed": {k: metrics[k] for k in sorted(metrics)},
         "distinct_sets": {k: len(v) for k, v in sorted(sets.items())},
         "legs": leg_info,
+        "distinct_counting": "per shard at most 40 000 distinct hashes are kept (conservative lower bound for larger runs)",
         "inconclusive_cases": int(inconclusive_cases),
         "inconclusive_reasons": inconclusive[:10],
         "known_findings_seen": {k: {"count": x["count"], "what": x["finding"]["what"]} for k, x in known.items()},
